@@ -29,7 +29,7 @@ type Options struct {
 
 func DefaultOptions() Options {
 	return Options{MaxDecisions: 4000, MaxConcretize: 70, MaxPaths: 200000, MaxInstrs: 3000000, MaxDepth: 150,
-		MaxAlloc: 70000, Unwind: 100000, SolverTimeout: 20000, Workers: 16, MaxViolations: 3, RunAfterMain: false}
+		MaxAlloc: 70000, Unwind: 100000, SolverTimeout: 20000, Workers: 16, MaxViolations: 1, RunAfterMain: false}
 }
 
 // KnownEntry is one line of known_findings.json with status "known".
@@ -287,7 +287,9 @@ func (h *HarnessRun) finishPath(ex *Exec, end string) {
 		h.Funcs[f] = true
 	}
 	for k, v := range ex.notes {
-		h.Notes[k] = v
+		if !strings.HasPrefix(k, "_") {
+			h.Notes[k] = v
+		}
 	}
 	if end == "done" && len(h.Witnesses) < 4 && ex.pos >= len(ex.prefix) {
 		if r, m := ex.check(nil, true); r == Sat {
